@@ -508,8 +508,24 @@ func (x *Exec) assumeEnsures(st, pre *State, fc *FuncContract, fn *ssa.Function,
 	bindResults(v2, fn.Signature, res)
 	env := &Env{x: x, c: x.c, st: st, old: pre, vars: v2, oldVars: vars, free: free, fn: fn, pos: fn.Pos(), ghostOnly: true}
 	for _, en := range fc.Ensures {
+		if en.Opaque && !x.revealed(en) {
+			continue
+		}
 		x.assumeG(st, x.evalClause(env, en))
 	}
+}
+
+// revealed: the function being verified asked for this opaque callee clause.
+func (x *Exec) revealed(en *Clause) bool {
+	if x.fc == nil {
+		return false
+	}
+	for _, t := range en.Tags {
+		if x.fc.Reveal[t] {
+			return true
+		}
+	}
+	return false
 }
 
 func bindResults(vars map[string]Val, sig *types.Signature, res Val) {
@@ -859,6 +875,47 @@ func init() {
 		}
 		return Val{T: t, S: ite(sx(">=", args[0].S, "0.0"), args[0].S, sx("-", args[0].S))}
 	}
+	// math.Round / Floor / Ceil / Trunc / Inf: exact over the reals (arith real) or IEEE (arith fp)
+	roundLike := func(name string) intrinsic {
+		return func(x *Exec, st *State, fn *ssa.Function, args []Val, pos token.Pos, resT *types.Tuple) Val {
+			c := x.c
+			t := resT.At(0).Type()
+			a := args[0].S
+			if c.mode.FP {
+				rm := map[string]string{"Round": "RNA", "Floor": "RTN", "Ceil": "RTP", "Trunc": "RTZ"}[name]
+				return Val{T: t, S: sx("fp.roundToIntegral", rm, a)}
+			}
+			fl := func(v string) string { return sx("to_int", v) }
+			neg := func(v string) string { return sx("-", v) }
+			var r string
+			switch name {
+			case "Floor":
+				r = fl(a)
+			case "Ceil":
+				r = neg(fl(neg(a)))
+			case "Trunc":
+				r = ite(sx(">=", a, "0.0"), fl(a), neg(fl(neg(a))))
+			case "Round": // half away from zero
+				r = ite(sx(">=", a, "0.0"), fl(sx("+", a, "0.5")), neg(fl(sx("+", neg(a), "0.5"))))
+			}
+			return Val{T: t, S: sx("to_real", c.def("rnd", "Int", r))}
+		}
+	}
+	for _, k := range []string{"Round", "Floor", "Ceil", "Trunc"} {
+		intrinsics["math."+k] = roundLike(k)
+	}
+	intrinsics["math.Inf"] = func(x *Exec, st *State, fn *ssa.Function, args []Val, pos token.Pos, resT *types.Tuple) Val {
+		c := x.c
+		t := resT.At(0).Type()
+		if c.mode.FP {
+			return Val{T: t, S: ite(sx(">=", args[0].S, "0"), "(_ +oo 11 53)", "(_ -oo 11 53)")}
+		}
+		// arith real: every float64 that occurs is finite (stated assumption);
+		// the infinities are two constants beyond the float64 range.
+		c.note("arith real: +Inf/-Inf are modelled as +-1e340; values compared with them are assumed finite float64 magnitudes")
+		lit := "1" + strings.Repeat("0", 340) + ".0"
+		return Val{T: t, S: ite(sx(">=", args[0].S, "0"), lit, sx("-", lit))}
+	}
 	intrinsics["errors.New"] = pureNonNilErr
 	intrinsics["fmt.Errorf"] = pureNonNilErr
 	pureFresh := func(x *Exec, st *State, fn *ssa.Function, args []Val, pos token.Pos, resT *types.Tuple) Val {
@@ -870,8 +927,8 @@ func init() {
 		"strconv.Atoi", "strconv.ParseUint", "strings.Fields", "strings.Join", "strings.TrimSpace", "strings.HasPrefix",
 		"strings.HasSuffix", "strings.TrimPrefix", "strings.TrimSuffix", "strings.Index", "strings.IndexByte", "strings.Contains",
 		"strings.ToLower", "strings.ToUpper", "strings.Repeat", "strings.SplitN", "strings.Trim", "strings.TrimLeft", "strings.TrimRight",
-		"strings.NewReader", "bytes.NewReader", "math.Round", "math.Floor", "math.Ceil",
-		"math.IsNaN", "math.IsInf", "math.Inf", "math.NaN", "math.Trunc", "math.Mod", "math.Sqrt", "math.Max", "math.Min",
+		"strings.NewReader", "bytes.NewReader",
+		"math.IsNaN", "math.IsInf", "math.NaN", "math.Mod", "math.Sqrt", "math.Max", "math.Min",
 		"time.Parse", "(time.Time).Format", "(time.Time).IsZero", "strings.EqualFold", "unicode/utf8.RuneCountInString",
 		"(*regexp.Regexp).FindStringSubmatch", "(*regexp.Regexp).MatchString", "strings.Cut", "strings.Replace", "strings.ReplaceAll",
 		"strings.LastIndex", "strings.LastIndexByte", "strings.ContainsRune", "strings.IndexRune", "strings.Map",
